@@ -26,10 +26,21 @@ def _is_sym(v):
     return _sp is not None and isinstance(v, _sp.Basic)
 
 
+LIB_CONST_SYMBOL = {"scipy.constants.R": "R", "scipy.constants.gas_constant": "R", "scipy.constants.Avogadro": "N_A",
+                    "scipy.constants.N_A": "N_A", "scipy.constants.electron_mass": "m_e", "scipy.constants.speed_of_light": "c_l",
+                    "scipy.constants.c": "c_l", "scipy.constants.Boltzmann": "k_B", "scipy.constants.k": "k_B"}
+
+
 def num_to_sym(v):
     """Num -> sympy (atoms become positive symbols)"""
     if _is_sym(v):
         return v
+    if type(v).__name__ == "ExtRef":
+        if v.dotted in LIB_CONST_SYMBOL:
+            return _sp.Symbol(LIB_CONST_SYMBOL[v.dotted], positive=True)
+        if v.dotted.endswith(".pi"):
+            return _sp.pi
+        raise TypeError(v)
     if isinstance(v, bool):
         return _sp.Integer(int(v))
     if isinstance(v, Num):
@@ -1097,6 +1108,13 @@ class Interp:
 
     # -- arithmetic ----------------------------------------------------------------
     def binop(self, op, a, b, node):
+        if getattr(self, "sympy_mode", False) and (isinstance(a, ExtRef) or isinstance(b, ExtRef)) and \
+                type(a).__name__ != "Vec" and type(b).__name__ != "Vec" and not isinstance(a, str) and not isinstance(b, str):
+            try:
+                a = num_to_sym(a) if isinstance(a, ExtRef) else a
+                b = num_to_sym(b) if isinstance(b, ExtRef) else b
+            except TypeError:
+                pass
         if (_is_sym(a) or _is_sym(b)) and type(a).__name__ != "Vec" and type(b).__name__ != "Vec":
             try:
                 x, y = num_to_sym(a), num_to_sym(b)
